@@ -960,6 +960,14 @@ func (e *Exec) box(st *State, v Value, to types.Type) Value {
 		r := e.freshRef(st, "boxedptr")
 		st.assume(mkEq(dynType(r), typeIdTerm(x.Typ)))
 		e.boxedPtrs[r.Name] = x
+		// pointer to a local struct: the heap object at r mirrors the local (kept in step by storeLoc),
+		// so that contracts can read it through cast(x, "T")
+		if ll, ok := x.Loc.(*LocalLoc); ok && len(ll.Path) == 0 && reprOf(ll.Typ) == rStruct {
+			if cur, ok := st.store[ll.Cell]; ok {
+				e.localMirror[ll.Cell] = r
+				e.storeLoc(st, &HeapLoc{Fam: heapFamily(ll.Typ), Ref: r, Typ: ll.Typ}, cur)
+			}
+		}
 		return Scalar{r, to}
 	case StructVal, SliceVal, ArrayVal:
 		r := e.freshRef(st, "boxed")
